@@ -881,6 +881,81 @@ def _replay_keywords(f):
     return guarded(file_case if f.get('path') == 'file' else api_case, f['input']['text'], None, None, seconds=10) is None
 
 
+HEADS = [
+    'announce ipv4 unicast 10.0.0.0/24 next-hop 192.0.2.1 med 5 community [ 65000:1 ]',
+    'announce ipv4 multicast 224.0.0.0/24 next-hop 192.0.2.1 origin igp',
+    'announce ipv6 unicast 2001:db8::/32 next-hop 2001:db8::1 local-preference 5',
+    'announce ipv4 nlri-mpls 10.0.0.0/24 next-hop 192.0.2.1 label 5',
+    'announce ipv6 nlri-mpls 2001:db8::/32 next-hop 2001:db8::1 label [ 5 6 ]',
+    'announce ipv4 mpls-vpn 10.0.0.0/24 next-hop 192.0.2.1 rd 65000:1 label 5',
+    'announce ipv6 mpls-vpn 2001:db8::/32 next-hop 2001:db8::1 rd 1.2.3.4:5 label 5',
+    'announce ipv4 mcast-vpn shared-join rp 10.99.199.1 group 239.251.255.228 rd 65000:99999 source-as 65000 next-hop 10.10.6.3 extended-community [ target:192.168.94.12:5 ]',
+    'announce ipv4 mcast-vpn source-ad source 10.99.12.4 group 239.251.255.228 rd 65000:99999 next-hop 10.10.6.4 extended-community [ target:65000:99999 ]',
+    'announce ipv4 mcast-vpn source-join source 10.99.12.2 group 239.251.255.228 rd 65000:99999 source-as 65000 next-hop 10.10.6.3',
+    'announce ipv6 mcast-vpn shared-join rp fd00::1 group ff0e::1 rd 65000:99999 source-as 65000 next-hop 10.10.6.3',
+    'announce ipv6 mcast-vpn source-ad source fd12::4 group ff0e::1 rd 65000:99999 next-hop 10.10.6.4',
+    'announce ipv6 mcast-vpn source-join source fd12::2 group ff0e::1 rd 65000:99999 source-as 65000 next-hop 10.10.6.3',
+    'announce ipv4 mup mup-isd 10.0.1.0/24 rd 100:100 next-hop 2001::1 extended-community [ target:10:10 ] bgp-prefix-sid-srv6 ( l3-service 2001:db8:1:1:: 0x48 [64,24,16,0,0,0] )',
+    'announce ipv6 mup mup-isd 2001::/64 rd 100:100 next-hop 2001::2 extended-community [ target:10:10 ]',
+    'announce ipv4 mup mup-dsd 10.0.0.1 rd 100:100 next-hop 2001::2 extended-community [ target:10:10 mup:10:10 ]',
+    'announce ipv6 mup mup-dsd 2001::1 rd 100:100 next-hop 2001::2 extended-community [ target:10:10 mup:10:10 ]',
+    'announce ipv4 mup mup-t1st 192.168.0.2/32 rd 100:100 teid 12345 qfi 9 endpoint 10.0.0.1 source 10.0.1.1 next-hop 10.0.0.2 extended-community [ target:10:10 ]',
+    'announce ipv6 mup mup-t1st 2001:db8:1:1::2/128 rd 100:100 teid 12345 qfi 9 endpoint 2001::1 source 2002::2 next-hop 10.0.0.2',
+    'announce ipv4 mup mup-t2st 10.0.0.1 rd 100:100 teid 12345/32 next-hop 10.0.0.2 extended-community [ target:10:10 mup:10:10 ]',
+    'announce ipv6 mup mup-t2st 2001::1 rd 100:100 teid 12345/32 next-hop 10.0.0.2',
+    'announce ipv4 sr-policy distinguisher 0 color 100 endpoint 10.10.10.10 next-hop 192.168.100.2 preference 100 segment-list weight 1 segment type-c ipv4 10.0.0.1 algorithm 0 sid 16001',
+    'announce ipv4 flow source-ipv4 10.0.0.1/32 destination-ipv4 10.0.0.2/32 protocol =tcp destination-port =80 rate-limit 9600',
+    'announce vpls rd 65000:1 endpoint 5 base 10702 offset 1 size 8 next-hop 192.0.2.1',
+    'announce attributes next-hop 192.0.2.1 med 5 nlri 10.0.0.0/24 10.0.1.0/24',
+]
+SUBST = ['', '-1', '99999999999999999999999', 'x', '[', ']', '(', '1.2.3.4/33', '::/129', '1.2.3.4', '2001:db8::1', '0', '\u00e9', '4294967296', '65536:65536']
+
+
+def mutated_heads(tier):
+    """every token of each valid command of HEADS (one per registered announce family and NLRI type) replaced by each value of
+    SUBST, and the command cut after every token"""
+    for head in HEADS:
+        toks = head.split()
+        for i in range(3, len(toks)):
+            yield ' '.join(toks[:i])
+            for sub in SUBST if tier == 'thorough' else SUBST[:8]:
+                if toks[i - 1] == 'next-hop' and sub in ('1.2.3.4', '2001:db8::1'):
+                    continue  # a next hop of the other family is a session matter (`nexthop { ipv4 unicast ipv6; }`), not a parse-time one
+                yield ' '.join(toks[:i] + ([sub] if sub else []) + toks[i + 1 :])
+
+
+@bounded('C18', 'every-family-token-mutations')
+def family_mutations(tier, seed):
+    fails, evals, distinct = [], 0, set()
+    for head in HEADS:
+        evals += 1
+        distinct.add(('head', head))
+        f = guarded(api_case, head, None if ' flow ' in head else True, None, seconds=10)
+        if f:
+            f['path'] = 'api'
+            fails.append(f)
+    for text in mutated_heads(tier):
+        if ('api', text) in distinct:
+            continue
+        evals += 1
+        distinct.add(('api', text))
+        try:
+            f = guarded(api_case, text, None, None, seconds=10)
+        except Exception as e:  # noqa
+            f = {'what': f'the harness itself failed on this text: {type(e).__name__}: {str(e)[:120]}', 'input': {'text': text}}
+        if f:
+            f['path'] = 'api'
+            fails.append(f)
+    api_object(fresh=True)
+    return {'evaluations': evals, 'distinct_nontrivial': len(distinct), 'bound': f'{len(HEADS)} valid commands, one per registered announce family and NLRI type (unicast, multicast, labelled, vpn, mcast-vpn x 3 types, mup x 4 types, sr-policy, flow, vpls, attributes; IPv4 and IPv6): each must be accepted; then every token of each replaced by {len(SUBST)} values (quick: 8) and the command cut after every token: an outcome within 10 s, never an exception; whatever is accepted is resolved, encoded for 4 session kinds x 2 message sizes and read back by both decoders', 'rule': 'one case = one command text; distinct by text', 'samples': [{'text': h} for h in HEADS[:3]], 'failures': fails}
+
+
+@replayer('C18', 'every-family-token-mutations')
+def _replay_family(f):
+    text = f['input']['text']
+    return guarded(api_case, text, (None if ' flow ' in text else True) if text in HEADS else None, None, seconds=10) is None
+
+
 @bounded('C18', 'api-and-file')
 def api_and_file(tier, seed):
     fails, evals, distinct, samples = [], 0, set(), []
